@@ -41,6 +41,13 @@ namespace c04 {
 
 constexpr int64_t kNs = 1000000000LL;
 constexpr int64_t kCoolingNs = 64 * kNs;
+// Virtual time may also pass WHILE operations are in flight ("drift", no exclusive lock), but at most this much
+// between two exclusive jumps: an operation can then never see more than 8 s go by — far below the cooling
+// period, so the documented premise (no operation outlasts it) still holds — and 64 s can never elapse without
+// an exclusive jump in between (which is what orders a reader's last use before a legitimate free for TSan).
+// Added after the seeded change C04-a2 (clock sampled before the head load in RetireList::retire) escaped: it
+// needs the clock to cross a 64 s unit boundary during one retire() call.
+constexpr int64_t kDriftBudgetNs = 8 * kNs;
 constexpr size_t kMaxIndex = size_t(1) << 17;
 
 ////////////////////////////////////////////////////////////////////////////////
@@ -64,6 +71,8 @@ struct Tl {
 static thread_local Tl tl;
 
 static std::atomic<int64_t> g_vnow_ns {0};   // the virtual CLOCK_MONOTONIC_RAW
+static std::atomic<int64_t> g_drift_since_jump {0};  // virtual time that passed while operations were in flight
+static std::atomic<bool> g_drift_enabled {false};    // cooling episodes only
 static std::atomic<bool> g_dying {false};    // the vector is being destroyed (frees are legitimate)
 static std::atomic<bool> g_poison {false};   // overwrite library blocks before freeing (plain/tsan)
 static std::atomic<uint32_t> g_ctor_stride_mask {0};
@@ -188,7 +197,10 @@ static void vf_delete(void* p, size_t size, size_t align) noexcept {
         g_tables_freed_live.fetch_add(1, std::memory_order_relaxed);
         if (tl.op == OP_GC) VF_COUNT("rare:table_expired_on_gc");
         else VF_COUNT("rare:table_expired_on_retire");
-        if (tf - ts < kCoolingNs) {
+        // slack = the in-flight drift budget: a retire() that sampled the clock, was delayed across a unit
+        // boundary and then lost its CAS re-publishes the list with its older stamp, so even the unchanged code
+        // may free a table up to one operation's duration short of 64 s (the code's own comment accepts that)
+        if (tf - ts < kCoolingNs - kDriftBudgetNs) {
           report("table-freed-inside-cooling-period",
                  "a retired block table was freed less than 64 s (virtual) after it was last the current table",
                  vf::fmt("table=%p size=%zu last seen current at %.3fs, freed at %.3fs (%.3fs later) by op %s", p,
@@ -593,7 +605,7 @@ struct Runner {
     if (held.empty()) return;
     size_t k = r.below(held.size());
     Held& h = held[k];
-    if (vnow - h.t0 >= kCoolingNs) {  // the guaranteed window is over: never touch it again
+    if (vnow - h.t0 >= kCoolingNs - kDriftBudgetNs) {  // the guaranteed window (minus in-flight drift) is over: never touch it again
       VF_COUNT("obs:held_snapshot_window_over");
       held[k] = held.back();
       held.pop_back();
@@ -858,6 +870,8 @@ struct Runner {
     tl.thread = logical;
     vf::Rng& r = vf::tl_rng();
     uint64_t last = 0;
+    g_drift_since_jump.store(0, std::memory_order_relaxed);
+    g_drift_enabled.store(true, std::memory_order_relaxed);
     while (g_workers_done.load(std::memory_order_acquire) < nworkers) {
       uint64_t stride = 20 + r.below(r.chance(1, 3) ? 600 : 150);
       // advance only after the workers completed `stride` more operations (case counts, not seconds)
@@ -867,9 +881,25 @@ struct Runner {
       }
       last = g_ops.load(std::memory_order_relaxed);
       int64_t now = g_vnow_ns.load(std::memory_order_relaxed), sec = now / kNs, add;
+      // in-flight drift: time passes while operations run (no exclusive lock), bounded by kDriftBudgetNs
+      // since the last exclusive jump; half of the drifts are aimed across the next 64 s unit boundary
+      if (r.chance(2, 5)) {
+        int64_t to_boundary = ((sec | 63) + 1) * kNs - now;
+        int64_t d = r.chance(1, 2) && to_boundary < 2 * kNs ? to_boundary + int64_t(r.below(kNs / 2)) + 1
+                                                            : int64_t(r.range(kNs / 5, kNs + kNs / 2));
+        if (g_drift_since_jump.load(std::memory_order_relaxed) + d < kDriftBudgetNs) {
+          g_drift_since_jump.fetch_add(d, std::memory_order_relaxed);
+          g_vnow_ns.fetch_add(d, std::memory_order_relaxed);
+          VF_COUNT("obs:clock_drifts_in_flight");
+          if (((now + d) / kNs >> 6) != (sec >> 6)) VF_COUNT("rare:unit_boundary_crossed_in_flight");
+          vf::progress();
+          continue;
+        }
+      }
       uint64_t x = r.below(100);
       if (x < 55) add = int64_t(r.range(1, 40)) * kNs + int64_t(r.below(kNs));
-      else if (x < 70) add = ((sec | 63) + 1 - sec + int64_t(r.range(0, 2)) - 1) * kNs + int64_t(r.below(kNs));  // next 64 s boundary -1/0/+1 s
+      else if (x < 68) add = ((sec | 63) + 1 - sec) * kNs - now % kNs - int64_t(r.range(1, 1500)) * (kNs / 1000);  // 1 ms .. 1.5 s before the next 64 s boundary (a drift then crosses it in flight)
+      else if (x < 74) add = ((sec | 63) + 1 - sec + int64_t(r.range(0, 2)) - 1) * kNs + int64_t(r.below(kNs));  // next 64 s boundary -1/0/+1 s
       else if (x < 82) add = int64_t(r.range(64, 300)) * kNs;
       else if (x < 90) add = int64_t(r.range(3600, 400000)) * kNs;
       else if (x < 96) add = (int64_t(65536 + int64_t(r.range(0, 4)) - 2) * 64) * kNs + int64_t(r.below(64)) * kNs;  // about one full 16-bit wrap
@@ -877,6 +907,7 @@ struct Runner {
       if (add <= 0) add = kNs;
       g_time_lock.lock();  // no vector operation of any thread is in flight
       g_vnow_ns.store(now + add, std::memory_order_relaxed);
+      g_drift_since_jump.store(0, std::memory_order_relaxed);
       g_time_lock.unlock();
       VF_COUNT("obs:clock_jumps");
       if (((now + add) / kNs >> 22) != (sec >> 22)) VF_COUNT("rare:timestamp_16bit_wrap_crossed");
@@ -891,6 +922,7 @@ struct Runner {
       }
       vf::progress();
     }
+    g_drift_enabled.store(false, std::memory_order_relaxed);
     vf::set_op(nullptr);
   }
 
@@ -974,7 +1006,7 @@ static void dispatch(const Cfg& cfg, uint64_t ep_seed) {
   }
 }
 
-static const std::vector<std::string> kStallPoints = {"cb:c04_ctor", "vec:before_cas", "vec:cas_won", "vec:cas_lost",
+static const std::vector<std::string> kStallPoints = {"cb:clock_read", "cb:clock_read", "cb:c04_ctor", "vec:before_cas", "vec:cas_won", "vec:cas_lost",
                                                       "vec:retire_loaded", "vec:retire_expired", "vec:gc_expired"};
 
 static void run_episode(uint64_t seed, uint64_t episode, bool cooling) {
@@ -1124,6 +1156,22 @@ extern "C" int clock_gettime(clockid_t id, struct timespec* ts) noexcept {
     if (c04::tl.in_lib) {
       c04::CbScope cb;
       VF_COUNT("obs:virtual_clock_reads_by_library");
+      vf::perturb("cb:clock_read");  // a thread may be descheduled right after sampling the clock
+      // ... and the clock may cross a 64 s unit boundary while it is: when the boundary is within the drift
+      // budget, a growing thread now and then finds that virtual time moved across it during its delay
+      // (the value it sampled stays the old one). Seeded change C04-a2 needs exactly this.
+      if (c04::g_drift_enabled.load(std::memory_order_relaxed) && c04::tl.op != c04::OP_GC) {
+        int64_t sec = v / c04::kNs, to_b = ((sec | 63) + 1) * c04::kNs - v;
+        int64_t used = c04::g_drift_since_jump.load(std::memory_order_relaxed);
+        vf::Rng& r = vf::tl_rng();
+        if (to_b + c04::kNs < c04::kDriftBudgetNs - used && r.chance(1, 3)) {
+          int64_t d = to_b + 1 + int64_t(r.below(uint64_t(c04::kNs / 2)));
+          c04::g_drift_since_jump.fetch_add(d, std::memory_order_relaxed);
+          c04::g_vnow_ns.fetch_add(d, std::memory_order_relaxed);
+          VF_COUNT("rare:unit_boundary_crossed_inside_retire");
+          vf::raw_sleep_us(500 + r.below(4000));
+        }
+      }
     }
     return 0;
   }
@@ -1184,7 +1232,8 @@ int main(int argc, char** argv) {
     }
   }
   wd.shutdown();
-  vf::extra("virtual_clock", "\"clock_gettime(CLOCK_MONOTONIC_RAW) served by the harness; jumps only while no vector "
-                             "operation is in flight (operations shorter than the cooling period is the documented premise)\"");
+  vf::extra("virtual_clock", "\"clock_gettime(CLOCK_MONOTONIC_RAW) served by the harness; large jumps only while no vector "
+                             "operation is in flight; bounded drift (< 8 s between two jumps) also while operations run, half of "
+                             "it aimed across a 64 s unit boundary (operations shorter than the cooling period is the documented premise)\"");
   return vf::finish();
 }
